@@ -12,6 +12,7 @@ import (
 	"io"
 	"math/big"
 	"math/rand/v2"
+	"strings"
 	"sync"
 	"sync/atomic"
 
@@ -93,6 +94,40 @@ func mkSigner(r *mon.Run, c Case, mskb []byte, ed bool) (signer, bool) {
 	return signer{kp, rs, pkb, name}, true
 }
 
+func specialSecretScalars() []*big.Int {
+	p2 := func(n uint) *big.Int { return new(big.Int).Lsh(big.NewInt(1), n) }
+	return []*big.Int{big.NewInt(0), big.NewInt(1), new(big.Int).Sub(ref.L, big.NewInt(1)), big.NewInt(8), p2(128), p2(252), new(big.Int).Sub(ref.L, big.NewInt(8)), big.NewInt(2)}
+}
+
+// mkSignerFromScalar builds a key pair from the 64-byte secret-key encoding scalar || nonce.
+func mkSignerFromScalar(r *mon.Run, c Case, k *big.Int, nonce []byte) (signer, bool) {
+	enc := append(ref.LE32(k), nonce...)
+	sk, err := sr25519.NewSecretKeyFromBytes(enc)
+	r.Eval(nil)
+	r.Hist("secret-key-from-scalar")
+	if err != nil {
+		r.Violate("sr25519/NewSecretKeyFromBytes/canonical-rejected", fmt.Sprintf("scalar=%x: %v", k, err), c)
+		return signer{}, false
+	}
+	rs := ref.SrSecret{Key: k, Nonce: nonce}
+	kp := sk.KeyPair()
+	pkb, _ := kp.PublicKey().MarshalBinary()
+	if !bytes.Equal(pkb, rs.Public()) {
+		r.Violate("sr25519/SecretKey-from-scalar/public-key", fmt.Sprintf("scalar=%x: got %x want %x", k, pkb, rs.Public()), c)
+		return signer{}, false
+	}
+	// the public key round-trips through its encoding, and the key pair through its own
+	if pk2, err := sr25519.NewPublicKeyFromBytes(pkb); err != nil || !pk2.Equal(kp.PublicKey()) {
+		r.Violate("sr25519/PublicKey/round-trip", fmt.Sprintf("scalar=%x: public key %x: err=%v", k, pkb, err), c)
+	}
+	if kb, err := kp.MarshalBinary(); err != nil {
+		r.Violate("sr25519/KeyPair/MarshalBinary", err.Error(), c)
+	} else if kp2, err := sr25519.NewKeyPairFromBytes(kb); err != nil || !kp2.PublicKey().Equal(kp.PublicKey()) {
+		r.Violate("sr25519/KeyPair/round-trip", fmt.Sprintf("scalar=%x: err=%v", k, err), c)
+	}
+	return signer{kp, rs, pkb, fmt.Sprintf("scalar-%x", k)}, true
+}
+
 // transcripts returns a library transcript and its reference twin.
 func transcripts(rng *rand.Rand, ctx, msg []byte, kind int) (*sr25519.SigningTranscript, *ref.Transcript, string) {
 	// the context and message buffers, and the hash object, stay the caller's: they are overwritten / written to as
@@ -165,7 +200,14 @@ func signing(r *mon.Run, c Case) {
 	case 1:
 		mskb = bytes.Repeat([]byte{0xff}, 32)
 	}
-	s, ok := mkSigner(r, c, mskb, c.Idx%2 == 1)
+	s, ok := signer{}, false
+	if sp := specialSecretScalars(); c.Idx >= 2 && c.Idx < 2+len(sp) {
+		// secret keys that no mini-secret expansion produces but that the decoder accepts (canonical scalar + nonce):
+		// 0 (the public key is the identity element), 1, L-1, powers of two, the cofactor
+		s, ok = mkSignerFromScalar(r, c, sp[c.Idx-2], mon.Bytes(rng, 32))
+	} else {
+		s, ok = mkSigner(r, c, mskb, c.Idx%2 == 1)
+	}
 	if !ok {
 		return
 	}
@@ -295,12 +337,23 @@ func signing(r *mon.Run, c Case) {
 			s2[b/8] ^= 1 << uint(b%8)
 			expectReject("sig-bit", s.pkb, s2, st, nil)
 		}
-		st2, _, _ := transcripts(rng, append(append([]byte{}, ctx...), 'x'), msg, kind)
-		expectReject("context", s.pkb, sigb, st2, nil)
-		st3, _, _ := transcripts(rng, ctx, append(append([]byte{}, msg...), 0), kind)
-		expectReject("message", s.pkb, sigb, st3, nil)
-		st4, _, _ := transcripts(rng, ctx, msg, (kind+1)%4)
-		expectReject("transcript-kind", s.pkb, sigb, st4, nil)
+		// keys given as a raw scalar include the zero scalar, whose public key is the identity element: R = [s]B then
+		// verifies on EVERY transcript (schnorrkel does the same; such a key is no product of a key expansion, which is
+		// what the property's rejection clause quantifies over). For those signers the reference decides; for expanded
+		// keys the expectation stays "rejected"
+		special := strings.HasPrefix(s.name, "scalar-")
+		pick := func(rt *ref.Transcript) *ref.Transcript {
+			if special {
+				return rt
+			}
+			return nil
+		}
+		st2, rt2, _ := transcripts(rng, append(append([]byte{}, ctx...), 'x'), msg, kind)
+		expectReject("context", s.pkb, sigb, st2, pick(rt2))
+		st3, rt3, _ := transcripts(rng, ctx, append(append([]byte{}, msg...), 0), kind)
+		expectReject("message", s.pkb, sigb, st3, pick(rt3))
+		st4, rt4, _ := transcripts(rng, ctx, msg, (kind+1)%4)
+		expectReject("transcript-kind", s.pkb, sigb, st4, pick(rt4))
 		other, ok2 := mkSigner(r, c, mon.Bytes(rng, 32), false)
 		if ok2 {
 			expectReject("other-key", other.pkb, sigb, st, nil)
